@@ -14,10 +14,14 @@ from .driver import Program, pack
 from .pp import *
 
 
-def shape_n(pid, macro, profile, gates, seed, heavy=False, cheap_later=False):
+def shape_n(pid, macro, profile, gates, seed, heavy=False, cheap_later=False, athen=False):
     is_async, is_try, is_spawn = KINDS[macro]
     carrier = "res" if is_try else "raw"
     styles = {}
+    if athen:
+        for b, d in enumerate(profile):
+            for s in range(1, d):
+                styles[(b, s)] = "athen"
     if cheap_later:
         for b, d in enumerate(profile):
             for s in range(1, d):
@@ -58,15 +62,22 @@ def shape_n(pid, macro, profile, gates, seed, heavy=False, cheap_later=False):
                  msg("the future completes exactly when all its branches can complete (poll 1 + sum of per-step maxima; task-spawning kinds: not later)")))
         L.append("        Poll::Pending => { vassert!(woken(), %s); vassert!(need > %d, %s); }" % (msg("a pending poll comes with a wake-up of the macro's future"), k, msg("no lost progress: still pending although every branch could have completed")))
         L.append("    }")
-        # independent progress in step 0: a branch needing <= k-1 pending polls has finished step 0 after poll k
-        for b in active(profile, 0):
-            g = pp.gate(b, 0)
-            cond = "true" if g == "0" else "%s <= %d" % (g, k - 1)
-            if is_try:
-                # (a sibling may be dropped unpolled once another branch has failed)
-                L.append("    if %s && (%s) { vassert!(cnt(%d) == 1, %s); }" % (cond, allok, E(b, 0, 1), msg("a ready branch is not blocked by a pending sibling")))
-            else:
-                L.append("    if %s { vassert!(cnt(%d) == 1, %s); }" % (cond, E(b, 0, 1), msg("a ready branch is not blocked by a pending sibling")))
+        # independent progress in every step: step s starts after poll 1 + sum of the earlier steps' maxima; a branch whose own gate of
+        # step s needs g pending polls has finished step s after poll 1 + base + g, whatever its siblings still wait for
+        for s_ in range(maxd):
+            base = " + ".join([stepmax(t) for t in range(s_)]) or "0u8"
+            if s_ > 0 and (cheap_later or len(active(profile, s_)) < 2):
+                continue
+            for b in active(profile, s_):
+                g = pp.gate(b, s_)
+                cond = "(%s) + %s <= %d" % (base, "0u8" if g == "0" else g, k - 1)
+                if is_spawn and s_ > 0:
+                    continue    # (tasks may run ahead of the model's polls: later steps are covered by the completion bound only)
+                if is_try:
+                    # (a sibling may be dropped unpolled once another branch has failed)
+                    L.append("    if %s && (%s) { vassert!(cnt(%d) == 1, %s); }" % (cond, allok, E(b, s_, 1), msg("a ready branch is not blocked by a pending sibling")))
+                else:
+                    L.append("    if %s { vassert!(cnt(%d) == 1, %s); }" % (cond, E(b, s_, 1), msg("a ready branch is not blocked by a pending sibling")))
         L.append("}")
     L.append("vassert!(done, %s);" % msg("the future completes within the maximal number of polls"))
     if not is_try:
@@ -164,18 +175,20 @@ def programs_nf(tier, seed):
     if tier == "quick":
         plan_n = [("join_async", (1, 1), 1, False, False), ("try_join_async", (1, 1), 1, False, False), ("join_async", (1, 1, 1), 1, False, False),
                   ("join_async_spawn", (1, 1), 1, False, False), ("try_join_async_spawn", (1, 1), 1, False, False), ("join_async", (2, 1), 1, False, True),
-                  ("join_async", (1,), 1, False, False)]
+                  ("join_async", (1,), 1, False, False), ("join_async", (2, 2), 1, False, "athen")]
         plan_f = [("join_async", 2, False), ("try_join_async", 2, False)]
     else:
         plan_n = [("join_async", (1, 1), 2, False, False), ("try_join_async", (1, 1), 2, False, False), ("join_async", (1, 1, 1), 2, True, False), ("try_join_async", (1, 1, 1), 1, True, False),
                   ("join_async_spawn", (1, 1), 2, True, False), ("try_join_async_spawn", (1, 1), 1, False, False), ("join_async_spawn", (1, 1, 1), 1, True, False),
                   ("async_spawn", (1, 1), 1, False, False), ("try_async_spawn", (1, 1), 1, False, False),
                   ("join_async", (2, 1), 1, True, False), ("join_async", (2, 2), 1, True, True), ("try_join_async", (2, 1), 1, True, False), ("join_async", (1, 2), 1, True, False),
-                  ("join_async", (1,), 2, False, False), ("join_async", (2,), 1, False, False)]
+                  ("join_async", (1,), 2, False, False), ("join_async", (2,), 1, False, False),
+                  ("join_async", (2, 2), 1, True, "athen"), ("join_async_spawn", (2, 2), 1, True, "athen"), ("try_join_async", (2, 2), 1, True, False), ("join_async", (1, 2, 2), 1, True, "athen"),
+                  ("join_async", (2, 2), 1, True, False)]
         plan_f = [("join_async", 2, False), ("try_join_async", 2, False), ("join_async", 3, True), ("try_join_async", 3, True)]
     for macro, prof, gates, heavy, cheap in plan_n:
         i += 1
-        ps.append(shape_n("p%04d" % i, macro, prof, gates, seed, heavy=heavy, cheap_later=cheap))
+        ps.append(shape_n("p%04d" % i, macro, prof, gates, seed, heavy=heavy, cheap_later=(cheap is True), athen=(cheap == "athen")))
     for macro, nb, heavy in plan_f:
         i += 1
         ps.append(shape_f("p%04d" % i, macro, nb, seed, heavy=heavy))
